@@ -29,7 +29,7 @@ fn quantile(v: &mut Vec<f64>, q: f64) -> f64 {
 }
 
 fn run(ctx: &mut Ctx) {
-    let m = sim::Model::load(REPO);
+    let m = sim::Model::load(&repo_root());
     let inv = crate::maps::inverse(u32::MAX);
     // every shard = one batch
     let per_batch: u64 = ctx.tier.pick(208, 250);
